@@ -393,7 +393,7 @@ func PrePassShape(p *load.Prog, r *oblig.Report, rule string) *PrePass {
 	if why == "" {
 		if bcall, ok := arg.(*ssa.Call); ok {
 			if callee := bcall.Common().StaticCallee(); callee != nil && callee.Name() == "String" && callee.Pkg != nil && callee.Pkg.Pkg.Path() == "strings" && len(bcall.Common().Args) == 1 {
-				lineWrite, bwhy := c.builderShape(bcall.Common().Args[0])
+				lineWrite, conditional, bwhy := c.builderShape(bcall.Common().Args[0])
 				if bwhy != "" {
 					r.Bad(rule, "prepass:join", pos(input), "the lexer input is assembled in a strings.Builder, but "+bwhy+": line numbers of the cleaned text would not be those of the input")
 					return pp
@@ -401,6 +401,9 @@ func PrePassShape(p *load.Prog, r *oblig.Report, rule string) *PrePass {
 				r.OK(rule, "prepass:join", pos(input), "ssa", "NewInputStream(TrimRight(<builder: cleaned lines separated by \"\\n\">, \"\\n\"))")
 				cleaned, back = lineWrite.Common().Args[1], lineWrite
 				hdr = loopHeaderOfBlock(lineWrite.Block())
+				if conditional {
+					implicitBlank, storeBlock = true, lineWrite.Block()
+				}
 				r.OK(rule, "prepass:one-line-out-per-line-in", pos(lineWrite), "ssa", "exactly one cleaned line and one separator are written on every path through the loop body; the loop is left only when the lines are exhausted")
 			}
 		}
@@ -781,7 +784,9 @@ func reachesBlock(from, to *ssa.BasicBlock) bool {
 // builderShape judges a text assembled in a strings.Builder: inside one complete loop exactly one WriteString of a
 // computed string (the cleaned line) on every path, and one "\n" separator per line — written after the line on
 // every path, or before it on every iteration but the first. Returns the call that writes the line.
-func (c *ppCtx) builderShape(recv ssa.Value) (*ssa.Call, string) {
+// builderShape … the second result says that the line write is conditional: a line for which nothing is written is an
+// empty line (the separator alone keeps the line structure).
+func (c *ppCtx) builderShape(recv ssa.Value) (*ssa.Call, bool, string) {
 	var lineWrites, sepWrites []*ssa.Call
 	for _, f := range c.funcs {
 		for _, b := range f.Blocks {
@@ -799,7 +804,7 @@ func (c *ppCtx) builderShape(recv ssa.Value) (*ssa.Call, string) {
 				case "WriteString":
 					if s, isC := constStr(call.Common().Args[1]); isC {
 						if s != "\n" {
-							return nil, fmt.Sprintf("the constant %q is written into it", s)
+							return nil, false, fmt.Sprintf("the constant %q is written into it", s)
 						}
 						sepWrites = append(sepWrites, call)
 					} else {
@@ -808,11 +813,11 @@ func (c *ppCtx) builderShape(recv ssa.Value) (*ssa.Call, string) {
 				case "WriteByte", "WriteRune":
 					cst, isC := call.Common().Args[1].(*ssa.Const)
 					if !isC || cst.Int64() != '\n' {
-						return nil, "a character other than the line separator is written into it"
+						return nil, false, "a character other than the line separator is written into it"
 					}
 					sepWrites = append(sepWrites, call)
 				default:
-					return nil, "it is also used through " + callee.Name()
+					return nil, false, "it is also used through " + callee.Name()
 				}
 			}
 		}
@@ -823,28 +828,28 @@ func (c *ppCtx) builderShape(recv ssa.Value) (*ssa.Call, string) {
 			switch x := ref.(type) {
 			case *ssa.Call:
 				if x.Common().Args[0] != recv || x.Common().StaticCallee() == nil || x.Common().StaticCallee().Pkg == nil || x.Common().StaticCallee().Pkg.Pkg.Path() != "strings" {
-					return nil, "the builder is passed to " + x.Common().Value.Name()
+					return nil, false, "the builder is passed to " + x.Common().Value.Name()
 				}
 			case *ssa.DebugRef:
 			case *ssa.Store:
 				if x.Addr != recv {
-					return nil, "the builder's address is stored"
+					return nil, false, "the builder's address is stored"
 				}
 			default:
-				return nil, "the builder is used in a way that is not understood"
+				return nil, false, "the builder is used in a way that is not understood"
 			}
 		}
 	}
 	if len(lineWrites) != 1 || len(sepWrites) != 1 {
-		return nil, fmt.Sprintf("%d places write a computed string and %d write a separator (one of each is required)", len(lineWrites), len(sepWrites))
+		return nil, false, fmt.Sprintf("%d places write a computed string and %d write a separator (one of each is required)", len(lineWrites), len(sepWrites))
 	}
 	lw, sw := lineWrites[0], sepWrites[0]
 	hdr := loopHeaderOfBlock(lw.Block())
 	if hdr == nil || lw.Parent() != sw.Parent() {
-		return nil, "the cleaned line is not written inside a loop"
+		return nil, false, "the cleaned line is not written inside a loop"
 	}
 	if !loopLeftOnlyFromHeader(hdr) {
-		return nil, "the loop can be left before the lines are exhausted"
+		return nil, false, "the loop can be left before the lines are exhausted"
 	}
 	uncond := func(b *ssa.BasicBlock) bool {
 		for _, pred := range hdr.Preds {
@@ -854,8 +859,13 @@ func (c *ppCtx) builderShape(recv ssa.Value) (*ssa.Call, string) {
 		}
 		return true
 	}
+	conditional := false
 	if !uncond(lw.Block()) {
-		return nil, "the cleaned line is not written on every path through the loop body"
+		// written on some paths only: the other paths leave the line empty; still at most once per line
+		if loopHeaderOfBlock(lw.Block()) != hdr {
+			return nil, false, "the cleaned line is written in a nested loop"
+		}
+		conditional = true
 	}
 	before := func(x, y *ssa.Call) bool {
 		if x.Block() == y.Block() {
@@ -872,13 +882,13 @@ func (c *ppCtx) builderShape(recv ssa.Value) (*ssa.Call, string) {
 	}
 	if uncond(sw.Block()) {
 		if !before(lw, sw) {
-			return nil, "the separator is written before the first line, so every line moves down by one"
+			return nil, false, "the separator is written before the first line, so every line moves down by one"
 		}
-		return lw, ""
+		return lw, conditional, ""
 	}
 	// separator before the line, on every iteration but the first: the only condition on it is index > 0 / index != 0
 	if loopHeaderOfBlock(sw.Block()) != hdr {
-		return nil, "the separator is not written in the loop of the lines"
+		return nil, false, "the separator is not written in the loop of the lines"
 	}
 	conds := e5path.DominatingConds(sw.Block())
 	var inLoop []e5path.CondEdge
@@ -888,11 +898,11 @@ func (c *ppCtx) builderShape(recv ssa.Value) (*ssa.Call, string) {
 		}
 	}
 	if len(inLoop) != 1 {
-		return nil, "the separator is written under conditions that are not understood"
+		return nil, false, "the separator is written under conditions that are not understood"
 	}
 	bo, ok := inLoop[0].Cond.(*ssa.BinOp)
 	if !ok {
-		return nil, "the separator is written under a condition that is not understood"
+		return nil, false, "the separator is written under a condition that is not understood"
 	}
 	idx := bo.X
 	isIndex := false
@@ -913,7 +923,7 @@ func (c *ppCtx) builderShape(recv ssa.Value) (*ssa.Call, string) {
 	zero, isC := bo.Y.(*ssa.Const)
 	notFirst := isIndex && isC && zero.Int64() == 0 && ((bo.Op == token.GTR && inLoop[0].Branch) || (bo.Op == token.NEQ && inLoop[0].Branch) || (bo.Op == token.EQL && !inLoop[0].Branch) || (bo.Op == token.LEQ && !inLoop[0].Branch))
 	if !notFirst {
-		return nil, "the separator is not written exactly on every iteration but the first"
+		return nil, false, "the separator is not written exactly on every iteration but the first"
 	}
 	// within one iteration the separator cannot follow the line: its block is not reachable from the line's block
 	// without passing the loop header
@@ -937,9 +947,9 @@ func (c *ppCtx) builderShape(recv ssa.Value) (*ssa.Call, string) {
 		}
 	}
 	if after {
-		return nil, "the separator that is skipped on the first iteration is written after the line"
+		return nil, false, "the separator that is skipped on the first iteration is written after the line"
 	}
-	return lw, ""
+	return lw, conditional, ""
 }
 
 func loopLeftOnlyFromHeader(hdr *ssa.BasicBlock) bool {
